@@ -96,6 +96,19 @@ ReplaySeg(c, seg) == IF seg = <<>> \/ Head(seg).ty = "x" THEN c       \* CacheLo
                      ELSE ReplaySeg(ApplyE(c, Head(seg)), Tail(seg))
 RECURSIVE ReplayAll(_, _)
 ReplayAll(c, w) == IF w = <<>> THEN c ELSE ReplayAll(ReplaySeg(c, Head(w)), Tail(w))   \* ... and go on with the next file
+\* duplicates left in the cache by a replay (a delete entry removes the duplicates of its points with them)
+Zero == [k \in Keys |-> [t \in Times |-> 0]]
+RECURSIVE DupSeg(_, _, _)
+DupSeg(c, d, seg) ==
+  IF seg = <<>> \/ Head(seg).ty = "x" THEN [c |-> c, d |-> d]
+  ELSE LET e == Head(seg) IN
+       IF e.ty = "w"
+       THEN DupSeg(ApplyE(c, e), [k \in Keys |-> [t \in Times |-> IF <<k, t>> \in e.pts /\ c[k][t] # 0 THEN d[k][t] + 1 ELSE d[k][t]]], Tail(seg))
+       ELSE DupSeg(ApplyE(c, e), Zap(d, e.ks, e.lo, e.hi), Tail(seg))
+RECURSIVE DupAll(_, _, _)
+DupAll(c, d, w) == IF w = <<>> THEN d ELSE LET r == DupSeg(c, d, Head(w)) IN DupAll(r.c, r.d, Tail(w))
+RECURSIVE SumD(_, _)
+SumD(d, P) == IF P = {} THEN 0 ELSE LET p == CHOOSE q \in P : TRUE IN d[p[1]][p[2]] + SumD(d, P \ {p})
 RECURSIVE Valid(_)
 Valid(seg) == IF seg = <<>> \/ Head(seg).ty = "x" THEN <<>> ELSE <<Head(seg)>> \o Valid(Tail(seg))
 
@@ -117,7 +130,11 @@ Cuts(s) == s.synced..Len(TailSeg(s))
 -----------------------------------------------------------------------------
 \* WRITE   Engine.WritePointsWithContext holds e.mu.RLock from the cache write to the return
 En_Write(s) == s.up /\ s.wpc = "idle" /\ s.dpc = "idle" /\ s.nW < MaxWrites
+\* `resid`: Cache.Size() is byte accounting; a value that is overwritten in the hot cache is counted twice and the
+\* duplicate disappears silently when the entry is de-duplicated by the next read, so the size stays above zero
+\* after everything was deleted.  It only decides which path an "empty" snapshot takes (SnapBegin).
 WCache(s, pts) == [s EXCEPT !.cache = Put(@, pts, s.nW + 1), !.idx = @ \cup {Ser(p[1]) : p \in pts},
+                            !.resid = @ + Cardinality({p \in pts : s.cache[p[1]][p[2]] # 0}),
                             !.wcur = [id |-> s.nW + 1, pts |-> pts], !.wpc = "cached", !.nW = @ + 1]
 WAppend(s) == [AppendTail(s, WEntry(s.wcur)) EXCEPT !.wpc = "appended"]
 WSync(s) == [s EXCEPT !.synced = Len(TailSeg(s)), !.wpc = "synced"]
@@ -132,11 +149,12 @@ SnapBegin(s) ==
   LET roll == TailSeg(s) # <<>> \/ s.gap                        \* CloseSegment: only a non-empty segment is closed
       w2 == IF roll THEN Append(s.wal, <<>>) ELSE s.wal
       s1 == [s EXCEPT !.wal = w2, !.synced = IF roll THEN 0 ELSE @, !.gap = FALSE, !.nS = @ + 1]
-  IN IF s.cache = Empty THEN s1                                 \* empty snapshot: cleared at once, segments stay
-     ELSE [s1 EXCEPT !.snap = s.cache, !.cache = Empty, !.snapN = Len(w2) - 1, !.spc = "taken",
+  IN IF s.cache = Empty /\ s.resid = 0 THEN s1                  \* snapshot.Size() = 0: cleared at once, segments stay
+     ELSE [s1 EXCEPT !.snap = s.cache, !.cache = Empty, !.resid = 0, !.snapN = Len(w2) - 1, !.spc = "taken",
                      !.taint = IF s.dpc # "idle" THEN @ \cup {"F14"} ELSE @]
-SnapTmp(s) == [s EXCEPT !.files = @ \cup {[gen |-> s.gen, seq |-> 1, tmp |-> TRUE, data |-> s.snap, dead |-> {}]},
-                        !.sfile = <<s.gen, 1>>, !.gen = @ + 1, !.spc = "tmp"]
+SnapTmp(s) == IF s.snap = Empty THEN [s EXCEPT !.sfile = NoId, !.spc = "tmp"]      \* nothing to write: no file
+              ELSE [s EXCEPT !.files = @ \cup {[gen |-> s.gen, seq |-> 1, tmp |-> TRUE, data |-> s.snap, dead |-> {}]},
+                             !.sfile = <<s.gen, 1>>, !.gen = @ + 1, !.spc = "tmp"]
 SnapRename(s) == [s EXCEPT !.files = {IF Id(f) = s.sfile THEN [f EXCEPT !.tmp = FALSE] ELSE f : f \in @}, !.spc = "renamed"]
 SnapInstall(s) == [s EXCEPT !.fset = @ \cup {Mem(f) : f \in {g \in s.files : Id(g) = s.sfile}}, !.spc = "installed"]
 SnapClear(s) == [s EXCEPT !.snap = Empty, !.spc = "cleared"]
@@ -219,7 +237,7 @@ En_Crash(s) == s.nCr < MaxCrash /\ (s.up \/ s.rpc = "cleaned")
 Crash(s, cut, torn) ==
   LET t2 == SubSeq(TailSeg(s), 1, cut) \o (IF torn THEN <<X>> ELSE <<>>)
   IN [s EXCEPT !.wal = [@ EXCEPT ![Len(@)] = t2], !.synced = Len(t2), !.gap = FALSE,
-               !.cache = Empty, !.snap = Empty, !.fset = {}, !.idx = {}, !.up = FALSE, !.rpc = "down",
+               !.cache = Empty, !.resid = 0, !.snap = Empty, !.fset = {}, !.idx = {}, !.up = FALSE, !.rpc = "down",
                !.spc = "idle", !.snapN = 0, !.sfile = NoId, !.cpc = "idle", !.cgroup = {}, !.cnew = NoId,
                !.nCr = @ + 1]          \* wpc/wcur/dpc/dcur stay: the call that was in flight when the process died
 RecCleanup(s) == [s EXCEPT !.files = {f \in @ : ~f.tmp}, !.rpc = "cleaned"]
@@ -230,7 +248,7 @@ RecOpen(s) ==
       fs == {Mem(f) : f \in s.files}
       rd == Over(Lww(fs), c)
   IN [s EXCEPT !.wal = w2, !.synced = Len(w2[Len(w2)]), !.gap = ("F1" \in Dev) /\ trunc,
-               !.cache = c, !.fset = fs, !.gen = MaxGen(fs) + 1,
+               !.cache = c, !.resid = SumD(DupAll(Empty, Zero, w2), Pts), !.fset = fs, !.gen = MaxGen(fs) + 1,
                !.idx = {Ser(k) : k \in (UNION {KeysIn(Vis(f)) : f \in fs}) \cup KeysIn(c)},     \* inmem index: rebuilt from files + cache
                !.up = TRUE, !.rpc = "up", !.wpc = "idle", !.wcur = NoW, !.dpc = "idle", !.dcur = NoD,
                !.acked = rd]           \* what survived is what clients can now read: the new baseline
@@ -240,7 +258,7 @@ Reopen(s) == Restart([Crash(s, Len(TailSeg(s)), FALSE) EXCEPT !.nCr = s.nCr])
 
 -----------------------------------------------------------------------------
 Init == st = [wal |-> << <<>> >>, synced |-> 0, gap |-> FALSE, files |-> {}, gen |-> 1,
-              cache |-> Empty, snap |-> Empty, fset |-> {}, idx |-> {}, up |-> TRUE, rpc |-> "up",
+              cache |-> Empty, resid |-> 0, snap |-> Empty, fset |-> {}, idx |-> {}, up |-> TRUE, rpc |-> "up",
               wpc |-> "idle", wcur |-> NoW, spc |-> "idle", snapN |-> 0, sfile |-> NoId,
               cpc |-> "idle", cgroup |-> {}, cnew |-> NoId, dpc |-> "idle", dcur |-> NoD,
               nW |-> 0, nS |-> 0, nC |-> 0, nD |-> 0, nCr |-> 0, acked |-> Empty, taint |-> {}]
